@@ -951,6 +951,15 @@ def newPublicKey (k : GoPub) : PO Key :=
     pure { kty := jwa.OKP, pub := k }
   | _ => PO.fail "keytype"
 
+/-! ## re-keying a Key object (jwk/jwk.go SetPrivateKey / SetPublicKey) -/
+
+/-- `SetPrivateKey`: the private key and, when it has a `Public()` method (every supported type but
+    `[]byte`), its public key; `kty`, `Raw` and the optional parameters stay as they are -/
+def setPrivateKey (k : Key) (g : GoPriv) : Key := { k with priv := g, pub := g.public }
+
+/-- `SetPublicKey`: sets the public key and removes the private key -/
+def setPublicKey (k : Key) (g : GoPub) : Key := { k with priv := .none, pub := g }
+
 /-- `DecodePEM`: returns the key and the rest -/
 def decodePEM (data : Bytes) : PO (Key × Bytes) := do
   match ← PO.query "jwk.pem.decode" [.bytes data] with
